@@ -25,14 +25,14 @@ def run(ctx, rep):
     rep.not_decided = 'the textual `#[typeshare` pre-filter against exotic attribute spellings such as `# [typeshare]` (an input-language question).'
     rep.trusted = ['syn', 'astq evaluator']
     T = emit.Types(ctx.astq)
-    pr.all_attrs_rule(ctx, rep, 'SA', ('has_typeshare_annotation', 'is_skipped'), 2)
-    s1(ctx, rep)
-    s2(ctx, rep)
-    s3(ctx, rep)
-    s4(ctx, rep)
-    s5(ctx, rep)
-    s6(ctx, rep, T)
-    s7(ctx, rep, T)
+    rep.section(pr.all_attrs_rule, ctx, rep, 'SA', ('has_typeshare_annotation', 'is_skipped'), 2, keys=('skip',))
+    rep.section(s1, ctx, rep)
+    rep.section(s2, ctx, rep)
+    rep.section(s3, ctx, rep)
+    rep.section(s4, ctx, rep)
+    rep.section(s5, ctx, rep)
+    rep.section(s6, ctx, rep, T)
+    rep.section(s7, ctx, rep, T)
 
 
 def s1(ctx, rep):
@@ -43,7 +43,8 @@ def s1(ctx, rep):
         site = {'file': f['file'], 'line': f['line']}
         if f['name'] in ITEM_VISITORS:
             parser = ITEM_VISITORS[f['name']]
-            cr = [c for c in f['calls'] if c.get('f') == 'collect_result']
+            fv = ctx.x(f)    # inlined view: a local helper combining the two tests (a method of the visitor, a free function) is seen through
+            cr = [c for c in fv['calls'] if c.get('f') == 'collect_result']
             rep.check(len(cr) == 1 and any(x.get('f') == parser for a in cr[0].get('args', []) for x in vt.calls_in(a)) if cr else False, 'S1', f"{f['name']}:collects", f'collect_result({parser}(..))', f"{f['name']} does not hand {parser}(item) to collect_result", site)
             if cr:
                 frames = [fr for fr in cr[0]['guard'] if fr.get('k') == 'if']
@@ -56,16 +57,38 @@ def s1(ctx, rep):
                     if isinstance(v, dict) and v.get('k') == 'paren':
                         return conj(v.get('v'))
                     return [v]
-                terms = set()
-                negated = False
+
+                def on_item_attrs(t):
+                    return any(x.get('k') == 'atom' and x.get('root') == item and x.get('path') == ['attrs'] for x in vt.walk(t))
+
+                def classify(t):
+                    """'T' target test, 'A' annotation test (any path segment == typeshare), 'A-weak' annotation test that only
+                    accepts the bare path, '?' anything else."""
+                    txt = json.dumps(t)
+                    calls = [x.get('f') for x in vt.walk(t) if x.get('k') == 'call']
+                    if not on_item_attrs(t):
+                        return '?'
+                    if t.get('k') == 'call' and t.get('f') in ('target_os_accepted', 'accept_target_os'):
+                        return 'T'
+                    if t.get('k') == 'call' and t.get('f') == 'has_typeshare_annotation':
+                        return 'A'
+                    names_ts = '"v": "typeshare"' in txt or '"TYPESHARE"' in txt
+                    if names_ts and 'segments' in txt and ('any' in calls or 'contains' in calls) and 'is_ident' not in calls:
+                        return 'A'
+                    if names_ts:
+                        return 'A-weak'
+                    return '?'
+                terms, negated = [], False
                 for fr in frames:
                     if fr.get('neg'):
                         negated = True
-                    terms |= {vt.show(t).replace(' ', '') for t in conj(fr['c'])}
-                tests = ' && '.join(sorted(terms))
-                want = {f"has_typeshare_annotation({item}.attrs)", f"self.target_os_accepted({item}.attrs)"}
-                alt = want
-                rep.check(terms == want and not negated, 'S1', f"{f['name']}:guard", 'collected iff annotated ∧ target accepted', f"{f['name']} collects the item under `{tests[:120]}` — expected exactly has_typeshare_annotation(&{item}.attrs) && target_os_accepted(&{item}.attrs): items are dropped or un-annotated items generated", site)
+                    terms += conj(fr['c'])
+                kinds = sorted(classify(t) for t in terms)
+                tests = ' && '.join(sorted(vt.show(t).replace(' ', '')[:70] for t in terms))
+                if 'A-weak' in kinds:
+                    rep.fail('S1', f"{f['name']}:guard:any-segment", f"{f['name']} recognises the annotation with `{next(vt.show(t)[:90] for t in terms if classify(t) == 'A-weak')}`: only the bare path `#[typeshare]` matches — items annotated `#[typeshare::typeshare]` / `#[::typeshare::typeshare(..)]` are silently omitted (every segment of the attribute path must be compared)", site)
+                else:
+                    rep.check(kinds == ['A', 'T'] and not negated, 'S1', f"{f['name']}:guard", 'collected iff annotated ∧ target accepted', f"{f['name']} collects the item under `{tests[:160]}` — expected exactly (annotated with #[typeshare]) ∧ (target accepted) on {item}.attrs: items are dropped or un-annotated items generated", site)
         if f['name'] in LEAF_VISITORS:
             continue
         default = [c for c in f['calls'] if c.get('f') == f"syn::visit::{f['name']}"]
@@ -79,10 +102,11 @@ def s1(ctx, rep):
     for need in ITEM_VISITORS:
         rep.check(need in names, 'S1', f'{need}:exists', 'override present', f'TypeShareVisitor no longer overrides {need}: items of that kind are never collected', {'file': 'core/src/visitors.rs', 'line': 0})
     # annotation test
-    h = ctx.fn('has_typeshare_annotation', file='parser.rs')
-    txt = json.dumps(h['tail'])
-    ok = '"segments"' in txt and '"any"' in txt and '"TYPESHARE"' in txt and '"is_ident"' not in txt
-    rep.check(ok, 'S1', 'has_typeshare_annotation:any-segment', 'any path segment equal to `typeshare`', "has_typeshare_annotation no longer tests every segment of the attribute path: `#[typeshare::typeshare]` / `#[::typeshare::typeshare]` items are silently omitted", {'file': h['file'], 'line': h['line']})
+    hs = [g for g in ctx.astq['functions'] if g['name'] == 'has_typeshare_annotation' and g['file'].endswith(('parser.rs', 'visitors.rs'))]
+    for h in hs[:1]:
+        txt = json.dumps(h['tail'])
+        ok = '"segments"' in txt and '"any"' in txt and ('"TYPESHARE"' in txt or '"v": "typeshare"' in txt) and '"is_ident"' not in txt
+        rep.check(ok, 'S1', 'has_typeshare_annotation:any-segment', 'any path segment equal to `typeshare`', "has_typeshare_annotation no longer tests every segment of the attribute path: `#[typeshare::typeshare]` / `#[::typeshare::typeshare]` items are silently omitted", {'file': h['file'], 'line': h['line']})
     c = ctx.items('const', 'TYPESHARE', 'parser.rs')
     rep.check(bool(c) and c[0]['strings'] == ['typeshare'], 'S1', 'const:TYPESHARE', 'TYPESHARE = "typeshare"', 'const TYPESHARE changed', {'file': 'core/src/parser.rs', 'line': c[0]['line'] if c else 0})
 
